@@ -17,6 +17,9 @@ enum ArrClass {
     ARR_BOUNDARY,       // byte-width boundary values
     ARR_FULL64,
     ARR_SMALL,          // 1..1000 (Elias domain: >= 1)
+    ARR_ZERORUNS,       // long runs of zeros (ones for codecs that need >= 1) between small values
+    ARR_WIDTH_EDGE,     // base + {0, 1, 2^(8w)-2, 2^(8w)-1, 2^(8w)}: ranges that exactly fill w bytes
+    ARR_POOL,           // drawn from a pool whose size sits near a decision threshold
     ARR_NCLASSES
 };
 
@@ -125,6 +128,46 @@ inline std::vector<uint64_t> gen_array(Rng &r, size_t n, int cls) {
     case ARR_SMALL:
         for (auto &x : v) x = r.range(1, r.chance(1, 2) ? 10 : 1000);
         break;
+    case ARR_WIDTH_EDGE: {
+        unsigned w = (unsigned)r.range(1, 7);
+        uint64_t full = (1ULL << (8 * w)) - 1;
+        uint64_t base = r.chance(1, 2) ? 0 : (r.chance(1, 2) ? r.below(1000) : magnitude(r) >> 9);
+        const uint64_t offs[] = {0, 1, full - 1, full, full, full + 1, full / 2};
+        bool exceed = r.chance(1, 3);
+        for (auto &x : v) {
+            uint64_t o = offs[r.below(exceed ? 7 : 5)];
+            if (!exceed && o > full) o = full;
+            x = base + o;
+        }
+        break;
+    }
+    case ARR_POOL: {
+        // number of distinct values near 15% / 90% of the length (or of a 1000-element sample)
+        size_t pool;
+        switch (r.below(4)) {
+        case 0: pool = n * 15 / 100 + r.below(4); break;
+        case 1: pool = n * 9 / 10 + r.below(4); break;
+        case 2: pool = r.range(120, 180); break;
+        default: pool = r.range(1, std::max<size_t>(n, 2)); break;
+        }
+        if (pool < 1) pool = 1;
+        std::vector<uint64_t> p(pool);
+        bool small = r.chance(1, 2);
+        for (auto &x : p) x = small ? r.below(60000) : magnitude(r);
+        for (auto &x : v) x = p[r.below(pool)];
+        break;
+    }
+    case ARR_ZERORUNS: {
+        // zero-width blocks, all-equal blocks, byte-aligned runs of the minimal value
+        size_t i = 0;
+        bool zeros = r.chance(1, 2);
+        while (i < n) {
+            size_t run = r.chance(1, 3) ? r.range(1, 6) : (r.chance(1, 2) ? r.range(7, 40) : r.range(100, 200));
+            for (size_t k = 0; k < run && i < n; k++, i++) v[i] = zeros ? 0 : r.range(1, r.chance(1, 2) ? 9 : 70000);
+            zeros = !zeros;
+        }
+        break;
+    }
     default:
         for (auto &x : v) x = r.next();
         break;
